@@ -4,6 +4,8 @@ import LoraVerif.Props.C05Size
 import LoraVerif.Props.TieA.PlanSelect
 import LoraVerif.Props.TieA.PlanSelectFixed
 import LoraVerif.Props.TieA.MacTopTx
+import LoraVerif.Props.TieA.JoinWalk
+import LoraVerif.Props.TieA.JoinWalkData
 /-!
 # C09 — the module `./check C09` builds: the property theorems (`Props/C09.lean`) together with the
 tie-A equalities between the hand model's constants and the items regenerated from the current
